@@ -65,14 +65,25 @@ Section Defaults.
   Notation decJ := (decJ e wildcard ps_empty ignore parseF).
   Notation decode_spec := (decode_spec e wildcard ignore parseF).
 
-  (* lit_value of Codec/Decode.v: the literal is re-parsed and decoded as a document of its own *)
+  Notation DJm f := (djmix e wildcard ps_empty ignore parseF f).
+
+  (* lit_value of Codec/Decode.v: the literal is re-parsed and decoded as a document of its own, as NewJsonReader does: without
+     exclusions and with scopeToIgnore 0 (djmix .. true = decJ e wildcard ps_empty 0 parseF f true, see [lit_value_unfold]) *)
   Definition lit_value (f : nat) (t : ty) (lit : bytes) : option value :=
     match parse_json lit with
-    | Some jd => match decJ f true t jd tracker0 with Ok (v, _) => Some v | _ => None end
+    | Some jd => match DJm f true t jd tracker0 with Ok (v, _) => Some v | _ => None end
     | None => None
     end.
 
-  Lemma lit_value_eq f t lit : lit_valueS (decJ f) t lit = lit_value f t lit.
+  Lemma lit_value_eq f t lit : lit_valueS (DJm f) t lit = lit_value f t lit.
+  Proof. reflexivity. Qed.
+
+  Lemma lit_value_unfold f t lit :
+    lit_value f t lit =
+    match parse_json lit with
+    | Some jd => match Decode.decJ e wildcard ps_empty 0 parseF f true t jd tracker0 with Ok (v, _) => Some v | _ => None end
+    | None => None
+    end.
   Proof. reflexivity. Qed.
 
   (* what an own slot holds after a decode at fuel (S f); [filled] = populateLocalDefaultValues ran *)
@@ -128,9 +139,9 @@ Section Defaults.
           by (apply existsb_exists; exists fd; split; [exact Hj|rewrite Eo; reflexivity]).
         congruence.
       - apply orb_false_iff in Eb as [-> _]. simpl negb.
-        exists ivs, (fill_defaultsS (decJ f) fs (map2 (slot_upd look) fs (map zs fs))).
+        exists ivs, (fill_defaultsS (DJm f) fs (map2 (slot_upd look) fs (map zs fs))).
         split; [reflexivity|]. split; [rewrite fill_length; exact Hlen|].
-        intros j fd Hj. rewrite (nth_error_fill (decJ f) fs _ j Hlen), Hj, (Hslot j fd Hj). f_equal.
+        intros j fd Hj. rewrite (nth_error_fill (DJm f) fs _ j Hlen), Hj, (Hslot j fd Hj). f_equal.
         unfold fill_slot, own_slot_spec. destruct (present (entries_of d) (f_name fd)); [reflexivity|]. unfold zs.
         destruct (f_opt fd) as [| |lit]; simpl; reflexivity.
     Qed.
